@@ -31,7 +31,6 @@ struct Inj(u32);
 macro_rules! precs {
     ([$(($Pr:ty, $P:literal)),+]) => { [$($P as u32),+] };
 }
-pub(crate) use precs;
 
 /// decode all pending entries (top first) from decoder `$d` and compare
 macro_rules! drain_check {
